@@ -664,3 +664,121 @@ Qed.
 (* engine variant = manual variant except for input mode `dataset` *)
 Lemma hierarchy_impl_eq_spec d rules m im o : im <> IDataset -> d_hierarchy_impl d rules m im o = d_hierarchy d rules m im o.
 Proof. intros H. unfold d_hierarchy_impl, d_hierarchy, d_hierarchy_gen. destruct im; [reflexivity | reflexivity | contradiction]. Qed.
+
+(* =============================================================== independence of the order of independent rules *)
+(* states are compared by their content (the order in which items were inserted is immaterial) *)
+Definition st_eq (a b : hstate) : Prop := forall c, elook c a = elook c b.
+
+Lemma forallb_ext_in {A} (f g : A -> bool) l : (forall x, In x l -> f x = g x) -> forallb f l = forallb g l.
+Proof.
+  induction l as [|x t IH]; intros H; [reflexivity|]. cbn. rewrite (H x (or_introl eq_refl)), IH; [reflexivity|].
+  intros y Hy. apply H. right. exact Hy.
+Qed.
+Lemma existsb_ext_in {A} (f g : A -> bool) l : (forall x, In x l -> f x = g x) -> existsb f l = existsb g l.
+Proof.
+  induction l as [|x t IH]; intros H; [reflexivity|]. cbn. rewrite (H x (or_introl eq_refl)), IH; [reflexivity|].
+  intros y Hy. apply H. right. exact Hy.
+Qed.
+
+Lemma item_val_ext m a b c : elook c a = elook c b -> item_val m a c = item_val m b c.
+Proof. unfold item_val. intros ->. reflexivity. Qed.
+
+Lemma heval_ext m a b e : (forall c, In c (hitems e) -> elook c a = elook c b) -> heval m a e = heval m b e.
+Proof.
+  induction e as [c|x IHx y IHy|x IHx y IHy|x IHx|x IHx]; cbn [heval hitems]; intros H.
+  - apply item_val_ext. apply H. left. reflexivity.
+  - rewrite IHx, IHy; auto; intros c Hc; apply H; apply in_app_iff; auto.
+  - rewrite IHx, IHy; auto; intros c Hc; apply H; apply in_app_iff; auto.
+  - rewrite IHx; auto.
+  - apply IHx; auto.
+Qed.
+
+Lemma hier_applicable_ext m a b rl :
+  (forall c, In c (hitems (h_right rl)) -> elook c a = elook c b) -> hier_applicable m a rl = hier_applicable m b rl.
+Proof.
+  intros H. unfold hier_applicable.
+  rewrite (existsb_ext_in (present a) (present b)) by (intros c Hc; unfold present; rewrite (H c Hc); reflexivity).
+  f_equal. destruct m.
+  - apply forallb_ext_in. intros c Hc. unfold present_nn. rewrite (H c Hc). reflexivity.
+  - f_equal. apply forallb_ext_in. intros c Hc. rewrite (item_val_ext _ a b c (H c Hc)). reflexivity.
+  - apply existsb_ext_in. intros c Hc. unfold present_nn. rewrite (H c Hc). reflexivity.
+  - apply existsb_ext_in. intros c Hc. unfold present_nn. rewrite (H c Hc). reflexivity.
+  - reflexivity.
+  - reflexivity.
+Qed.
+
+Lemma hier_src_ext chain st0 a b : st_eq a b -> st_eq (hier_src chain st0 a) (hier_src chain st0 b).
+Proof. intros H. unfold hier_src. destruct chain; [exact H | intros c; reflexivity]. Qed.
+
+Lemma hier_step_ext m im chain st0 a b rl : st_eq a b -> st_eq (hier_step m im chain st0 a rl) (hier_step m im chain st0 b rl).
+Proof.
+  intros H c. rewrite !hier_step_lookup. pose proof (hier_src_ext chain st0 a b H) as Hs.
+  rewrite (hier_applicable_ext m _ _ rl (fun c _ => Hs c)), (heval_ext m _ _ (h_right rl) (fun c _ => Hs c)), (H (h_left rl)), (H c).
+  reflexivity.
+Qed.
+
+Lemma hier_out_ext m chain st0 a b rl : st_eq a b -> hier_out m chain st0 a rl = hier_out m chain st0 b rl.
+Proof.
+  intros H. unfold hier_out. pose proof (hier_src_ext chain st0 a b H) as Hs.
+  rewrite (hier_applicable_ext m _ _ rl (fun c _ => Hs c)), (heval_ext m _ _ (h_right rl) (fun c _ => Hs c)). reflexivity.
+Qed.
+
+Lemma hier_group_ext m im chain st0 rules : forall a b, st_eq a b ->
+  st_eq (fst (hier_group m im chain st0 a rules)) (fst (hier_group m im chain st0 b rules)) /\
+  snd (hier_group m im chain st0 a rules) = snd (hier_group m im chain st0 b rules).
+Proof.
+  induction rules as [|rl t IH]; intros a b H; [split; [exact H | reflexivity]|].
+  rewrite !hier_group_cons. cbn [fst snd].
+  destruct (IH _ _ (hier_step_ext m im chain st0 a b rl H)) as [H1 H2]. split; [exact H1|].
+  rewrite H2, (hier_out_ext m chain st0 a b rl H). reflexivity.
+Qed.
+
+(* two rules are independent when they compute different items and neither reads the item the other computes *)
+Definition indep (r1 r2 : hrule) : Prop :=
+  h_left r1 <> h_left r2 /\ ~ In (h_left r1) (hitems (h_right r2)) /\ ~ In (h_left r2) (hitems (h_right r1)).
+
+Lemma step_keeps_items m im chain st0 st r1 r2 :
+  ~ In (h_left r1) (hitems (h_right r2)) ->
+  forall c, In c (hitems (h_right r2)) ->
+    elook c (hier_src chain st0 (hier_step m im chain st0 st r1)) = elook c (hier_src chain st0 st).
+Proof.
+  intros Hn c Hc. unfold hier_src. destruct chain; [|reflexivity]. rewrite hier_step_lookup.
+  destruct (String.eqb c (h_left r1)) eqn:E; [apply String.eqb_eq in E; subst c; contradiction|].
+  rewrite andb_false_r. reflexivity.
+Qed.
+
+Lemma hier_step_commute m im chain st0 st r1 r2 : indep r1 r2 ->
+  st_eq (hier_step m im chain st0 (hier_step m im chain st0 st r1) r2)
+        (hier_step m im chain st0 (hier_step m im chain st0 st r2) r1) /\
+  hier_out m chain st0 (hier_step m im chain st0 st r1) r2 = hier_out m chain st0 st r2 /\
+  hier_out m chain st0 (hier_step m im chain st0 st r2) r1 = hier_out m chain st0 st r1.
+Proof.
+  intros [Hne [H12 H21]].
+  pose proof (step_keeps_items m im chain st0 st r1 r2 H12) as K2.
+  pose proof (step_keeps_items m im chain st0 st r2 r1 H21) as K1.
+  split; [|split].
+  - intros c. rewrite !hier_step_lookup.
+    rewrite (hier_applicable_ext m _ _ r2 K2), (heval_ext m _ _ (h_right r2) K2).
+    rewrite (hier_applicable_ext m _ _ r1 K1), (heval_ext m _ _ (h_right r1) K1).
+    assert (String.eqb (h_left r2) (h_left r1) = false) as E21 by (apply String.eqb_neq; congruence).
+    assert (String.eqb (h_left r1) (h_left r2) = false) as E12 by (apply String.eqb_neq; congruence).
+    rewrite E21, E12, !andb_false_r.
+    destruct (String.eqb c (h_left r2)) eqn:Ec2, (String.eqb c (h_left r1)) eqn:Ec1; rewrite ?andb_false_r, ?andb_true_r; try reflexivity.
+    apply String.eqb_eq in Ec2. apply String.eqb_eq in Ec1. exfalso. congruence.
+  - unfold hier_out. rewrite (hier_applicable_ext m _ _ r2 K2), (heval_ext m _ _ (h_right r2) K2). reflexivity.
+  - unfold hier_out. rewrite (hier_applicable_ext m _ _ r1 K1), (heval_ext m _ _ (h_right r1) K1). reflexivity.
+Qed.
+
+(* swapping two adjacent independent rules changes neither the computed datapoints nor the final state *)
+Lemma hier_group_swap m im chain st0 st pre r1 r2 post : indep r1 r2 ->
+  st_eq (fst (hier_group m im chain st0 st (pre ++ r1 :: r2 :: post)))
+        (fst (hier_group m im chain st0 st (pre ++ r2 :: r1 :: post))) /\
+  Permutation (snd (hier_group m im chain st0 st (pre ++ r1 :: r2 :: post)))
+              (snd (hier_group m im chain st0 st (pre ++ r2 :: r1 :: post))).
+Proof.
+  intros Hi. rewrite !hier_group_app. cbn [fst snd]. set (s1 := fst (hier_group m im chain st0 st pre)).
+  rewrite !hier_group_cons. cbn [fst snd].
+  destruct (hier_step_commute m im chain st0 s1 r1 r2 Hi) as [Hs [Ho2 Ho1]].
+  destruct (hier_group_ext m im chain st0 post _ _ Hs) as [Hf Hsn]. split; [exact Hf|].
+  rewrite Ho2, Ho1, Hsn. apply Permutation_app_head. rewrite !app_assoc. apply Permutation_app_tail. apply Permutation_app_comm.
+Qed.
